@@ -1,4 +1,5 @@
 import Supv.Model.Inst
+import Supv.Model.Proc
 
 /-!
 # Model of a cluster: N instances (`Supv.Inst`) + the internal communication layer
@@ -18,7 +19,34 @@ inductive Item where
   | restartAll | shutdownAll             -- RESTART_ALL / SHUTDOWN_ALL request (re-routed to the Master)
   | restartLocal | shutdownLocal         -- RESTART / SHUTDOWN request to the local Supervisor
   | notif (op : Option Op)               -- notification for the local instance (none = no effect on this model)
+  | pev (p : Nat) (s : Supv.Proc.PState) (ex : Bool) (et : Nat)      -- PROCESS publication (process state event)
+  | notifInfo (j : Nat) (snap : List Supv.Proc.Snap)                 -- ALL_INFO notification: the snapshot taken on `j`
   deriving Repr
+
+/-- an element of the inbox of an instance (RemoteCommunicationEvent waiting in its Supervisor) -/
+inductive In where
+  | op (o : Option Op)
+  | pev (src p : Nat) (s : Supv.Proc.PState) (ex : Bool) (et : Nat)
+  | info (src : Nat) (snap : List Supv.Proc.Snap)
+  deriving Repr
+
+/-- GHOST (no effect on the behaviour): what became of the LAST report of an instance about a program on its way to a peer -/
+inductive Fate where
+  | inflight                   -- queued (proxy queue of the sender or inbox of the receiver)
+  | delivered                  -- accepted by the receiver, or covered by a snapshot taken afterwards
+  | filtered (v : IState)      -- not sent: the sender saw the receiver in the inactive state `v` (`publish` filter)
+  | refused (v : IState)       -- received while the receiver saw the sender in state `v` (not CHECKED / RUNNING)
+  | noInfo                     -- received about a program for which the receiver holds no information from the sender
+  | dropped                    -- the transport failed (receiver unreachable when the proxy sent it)
+  | vanished                   -- the sender's Supervisor restarted: its process table changed without any report
+  deriving Repr, DecidableEq, Inhabited
+
+/-- what the Supervisor of an instance knows about one of its programs (the truth) -/
+structure Truth where
+  state : Supv.Proc.PState := .stopped
+  expected : Bool := true
+  etime : Nat := 0
+  deriving Repr, Inhabited
 
 structure Net where
   n : Nat
@@ -27,10 +55,20 @@ structure Net where
   up : List Bool
   cut : List (Nat × Nat) := []
   proxy : List (List (List Item))        -- proxy[i][j]
-  inbox : List (List (Option Op))        -- inbox[j]
+  inbox : List (List In)                 -- inbox[j]
   counter : List Nat                     -- listener.counter per instance
   orders : List (List String)            -- restart/shutdown orders received by each Supervisor
   oracle : List (Query × Nat) := []     -- oracle answers for the instance handling the current global action
+  /-- replicated process database: `nproc` programs; `known[i]` = programs configured in the Supervisor of `i`;
+      `truth[i][p]` = state of `p` in the Supervisor of `i`; `data[i][p]` = the `ProcessStatus` of `p` held by `i` -/
+  nproc : Nat := 0
+  known : List (List Nat) := []
+  truth : List (List Truth) := []
+  data : List (List Supv.Proc.Proc) := []
+  /-- GHOST: `fate` of the last report, keyed by (sender, receiver, program); `sinceSnap` holds (receiver, sender, program)
+      when the sender reported about the program after the receiver last read its process table -/
+  fate : List ((Nat × Nat × Nat) × Fate) := []
+  sinceSnap : List (Nat × Nat × Nat) := []
   deriving Repr
 
 def Net.cfg (g : Net) (i : Nat) : Cfg := g.cfgs.getD i default
@@ -64,10 +102,35 @@ def Net.route (g : Net) (i : Nat) (outs : List Out) : Net :=
     | .shutdownAll m => g.push i m .shutdownAll
     | _ => g) g
 
-/-- run one operation on instance `i` and route what it emitted; returns the error if the handler raised -/
+def Net.setFate (g : Net) (src dst p : Nat) (f : Fate) : Net :=
+  { g with fate := (g.fate.filter (fun x => x.1 != (src, dst, p))) ++ [((src, dst, p), f)] }
+def Net.fateOf (g : Net) (src dst p : Nat) : Fate := ((g.fate.find? (fun x => x.1 == (src, dst, p))).map (·.2)).getD .delivered
+
+def Net.proc (g : Net) (i p : Nat) : Supv.Proc.Proc := (g.data.getD i []).getD p {}
+def Net.setProc (g : Net) (i p : Nat) (x : Supv.Proc.Proc) : Net :=
+  { g with data := g.data.set i ((g.data.getD i []).set p x) }
+def resOr (r : Supv.Proc.Res Supv.Proc.Proc) (x : Supv.Proc.Proc) : Supv.Proc.Proc := match r with | .ok y => y | .err _ => x
+
+/-- an instance state in which `Context` holds (or may hold) process information of the peer -/
+def holdsData (s : IState) : Bool := s == .checking || s == .checked || s == .running || s == .failed
+
+/-- `Context.invalidate_failed`, process part: every process running on a lost instance gets a FATAL report from it -/
+def Net.loseData (g : Net) (now i : Nat) (lost : List Nat) : Net :=
+  lost.foldl (fun g j => (List.range g.nproc).foldl (fun g p =>
+    let x := g.proc i p
+    g.setProc i p (resOr (Supv.Proc.pstep x now (.lose j)) x)) g) g
+
+/-- run one operation on instance `i` and route what it emitted; returns the error if the handler raised.  The peers that
+    went from a data-holding state to STOPPED / ISOLATED in this operation were invalidated by `invalidate_failed` (the
+    refusals of the handshake - `auth`, `allinfoNone` - invalidate the instance only, not its processes). -/
 def Net.handle (g : Net) (now : Nat) (i : Nat) (op : Op) : Net × Option Err × List Out :=
+  let before := (g.inst i).peers.map (·.state)
   let (s', e) := stepOp (g.cfg i) (g.inst i) now op g.oracle
   let g' := { g with insts := g.insts.set i s' }
+  let exempt : Option Nat := match op with | .auth j _ _ => some j | .allinfoNone j => some j | _ => none
+  let lost := (List.range g.n).filter (fun j => holdsData (before.getD j .stopped)
+    && (let a := (s'.peers.getD j {}).state; a == .stopped || a == .isolated) && exempt != some j)
+  let g' := if g.nproc = 0 then g' else g'.loseData now i lost
   (g'.route i s'.out, e, s'.out)
 
 abbrev Obs := List (Nat × Option Err × List Out)       -- instances touched by a global step
@@ -112,13 +175,21 @@ def Net.exec (g : Net) (now : Nat) (i j : Nat) : Net × Obs :=
     if g.view i j = .isolated then (g, []) else
     match it with
     | .tick k =>
-      if g.reachable i j then ({ g with inbox := g.inbox.set j (g.inbox.getD j [] ++ [some (.rtick i k)]) }, [])
+      if g.reachable i j then ({ g with inbox := g.inbox.set j (g.inbox.getD j [] ++ [.op (some (.rtick i k))]) }, [])
       else (g.proxyFailure i j, [])
     | .state m =>
       if (g.view i j).active then
-        if g.reachable i j then ({ g with inbox := g.inbox.set j (g.inbox.getD j [] ++ [some (.state i m)]) }, [])
+        if g.reachable i j then ({ g with inbox := g.inbox.set j (g.inbox.getD j [] ++ [.op (some (.state i m))]) }, [])
         else (g.proxyFailure i j, [])
       else (g, [])
+    | .pev p st ex et =>
+      -- SupervisorProxy.publish: anything but a TICK is only sent to a peer in an active state
+      if (g.view i j).active then
+        if g.reachable i j then ({ g with inbox := g.inbox.set j (g.inbox.getD j [] ++ [.pev i p st ex et]) }, [])
+        else ((g.setFate i j p .dropped).proxyFailure i j, [])
+      else (g.setFate i j p (.filtered (g.view i j)), [])
+    | .notifInfo src snap =>
+      if g.up.getD i false then ({ g with inbox := g.inbox.set i (g.inbox.getD i [] ++ [.info src snap]) }, []) else (g, [])
     | .check =>
       -- SupervisorProxy.check_instance
       if !g.reachable i j then (g.proxyFailure i j, [])
@@ -127,11 +198,16 @@ def Net.exec (g : Net) (now : Nat) (i j : Nat) : Net × Obs :=
         let code := g.authCode i j
         let g := if code = 1 then
             let m := (g.inst j).modes.getD j {}
-            (g.push i i (.notif (some (.state j m)))).push i i (.notif none)  -- STATE then ALL_INFO
+            -- STATE then ALL_INFO (`_transfer_process_info`: the process table of `j` read NOW)
+            let snap : List Supv.Proc.Snap := (g.known.getD j []).map (fun p =>
+              let t := (g.truth.getD j []).getD p {}
+              { proc := p, state := t.state, expected := t.expected, etime := now, disabled := false })
+            let g := { g with sinceSnap := g.sinceSnap.filter (fun x => !(x.1 == i && x.2.1 == j)) }
+            (g.push i i (.notif (some (.state j m)))).push i i (if g.nproc = 0 then .notif none else .notifInfo j snap)
           else g
         (g.push i i (.notif (some (.auth j code now))), [])
     | .notif op =>
-      if g.up.getD i false then ({ g with inbox := g.inbox.set i (g.inbox.getD i [] ++ [op]) }, []) else (g, [])
+      if g.up.getD i false then ({ g with inbox := g.inbox.set i (g.inbox.getD i [] ++ [.op op]) }, []) else (g, [])
     | .restartAll =>
       if g.reachable i j then
         (if gate (((g.inst j).modes.getD j {}).fsm) then g.rpcEnd now j false else (g, []))
@@ -143,21 +219,59 @@ def Net.exec (g : Net) (now : Nat) (i j : Nat) : Net × Obs :=
     | .restartLocal => ({ g with orders := g.orders.set j (g.orders.getD j [] ++ ["restart"]) }, [])
     | .shutdownLocal => ({ g with orders := g.orders.set j (g.orders.getD j [] ++ ["shutdown"]) }, [])
 
+/-- `Context.on_process_state_event` of `j` for a report of `src`: accepted from a CHECKED / RUNNING instance about a process
+    for which `j` holds information from `src` (`check_process`) -/
+def Net.applyEvent (g : Net) (now j src p : Nat) (st : Supv.Proc.PState) (ex : Bool) (et : Nat) : Net :=
+  let v := g.view j src
+  let x := g.proc j p
+  if (v == .checked || v == .running) && (x.infos.get? src).isSome then
+    (g.setProc j p (resOr (Supv.Proc.updateInfo x src st ex et none now) x)).setFate src j p .delivered
+  else if v == .checked || v == .running then g.setFate src j p .noInfo
+  else g.setFate src j p (.refused v)
+
+/-- `Context.load_processes(status, all_info)`: only while the instance is CHECKING -/
+def Net.loadInfo (g : Net) (now i src : Nat) (snap : List Supv.Proc.Snap) : Net :=
+  if g.view i src == .checking then
+    snap.foldl (fun g sn => let x := g.proc i sn.proc
+      let g := g.setProc i sn.proc (resOr (Supv.Proc.addInfo x src sn.state sn.expected sn.etime sn.disabled now) x)
+      -- GHOST: the snapshot covers every report made before it was taken
+      if g.sinceSnap.contains (i, src, sn.proc) then g else g.setFate src i sn.proc .delivered) g
+  else g
+
 /-- the Supervisor of `j` dispatches the next RemoteCommunicationEvent to the listener -/
 def Net.deliver (g : Net) (now : Nat) (j : Nat) : Net × Obs :=
   match g.inbox.getD j [] with
   | [] => (g, [])
-  | op :: rest =>
+  | it :: rest =>
     let g := { g with inbox := g.inbox.set j rest }
-    match op with
-    | none => (g, [(j, none, [])])
-    | some op => let (g', e, o) := g.handle now j op; (g', [(j, e, o)])
+    match it with
+    | .op none => (g, [(j, none, [])])
+    | .op (some op) => let (g', e, o) := g.handle now j op; (g', [(j, e, o)])
+    | .pev src p st ex et => (g.applyEvent now j src p st ex et, [(j, none, [])])
+    | .info src snap => (g.loadInfo now j src snap, [(j, none, [])])
+
+/-- a process state event of the Supervisor of `i` (`SupervisorListener.on_process_state`): the truth changes, the local
+    instance handles the event, then it is published to every other instance -/
+def Net.procEvent (g : Net) (now i p : Nat) (st : Supv.Proc.PState) (ex : Bool) : Net × Obs :=
+  let g := { g with truth := g.truth.set i ((g.truth.getD i []).set p { state := st, expected := ex, etime := now }) }
+  let g := g.applyEvent now i i p st ex now
+  -- GHOST (the local instance reads its own process table through a handshake with itself as well)
+  let g := { g with sinceSnap := if g.sinceSnap.contains (i, i, p) then g.sinceSnap else g.sinceSnap ++ [(i, i, p)] }
+  let g := (List.range g.n).foldl (fun g j => if j = i then g else
+    { g.setFate i j p (if g.view i j = .isolated then .filtered .isolated else .inflight) with
+      sinceSnap := if g.sinceSnap.contains (j, i, p) then g.sinceSnap else g.sinceSnap ++ [(j, i, p)] }) g
+  (g.publish i (.pev p st ex now), [(i, none, [])])
 
 def Net.init (cfgs : List Cfg) (now : Nat) : Net :=
   let n := cfgs.length
   { n := n, cfgs := cfgs, insts := cfgs.map (fun c => { initSt c with startDate := now, now := now }),
     up := List.replicate n true, proxy := List.replicate n (List.replicate n []), inbox := List.replicate n [],
     counter := List.replicate n 0, orders := List.replicate n [] }
+
+/-- the same cluster with `nproc` programs, `known[i]` configured in the Supervisor of `i`, all STOPPED -/
+def Net.withProcs (g : Net) (nproc : Nat) (known : List (List Nat)) : Net :=
+  { g with nproc := nproc, known := known, truth := List.replicate g.n (List.replicate nproc {}),
+           data := List.replicate g.n (List.replicate nproc {}) }
 
 def fsmOfInst (g : Net) (i : Nat) : SState := ((g.inst i).modes.getD i {}).fsm
 
@@ -187,6 +301,59 @@ def Net.restart (g : Net) (now : Nat) (i : Nat) : Net :=
            up := g.up.set i true,
            proxy := g.proxy.set i (List.replicate g.n []),
            inbox := g.inbox.set i [],
-           counter := g.counter.set i 0 }
+           counter := g.counter.set i 0,
+           truth := g.truth.set i (List.replicate g.nproc {}),
+           data := g.data.set i (List.replicate g.nproc {}),
+           -- GHOST: whatever `i` reported before is void; what `i` held is gone
+           fate := (g.fate.filter (fun x => x.1.1 != i && x.1.2.1 != i)) ++
+             ((List.range g.n).flatMap fun j => if j = i then [] else (List.range g.nproc).map fun p => ((i, j, p), Fate.vanished)),
+           sinceSnap := (g.sinceSnap.filter (fun x => x.1 != i)) ++
+             ((List.range g.n).flatMap fun j => (List.range g.nproc).filterMap fun p => if g.sinceSnap.contains (j, i, p) then none else some (j, i, p)) }
+
+/-! ## Global actions of the scheduler (one line of the lock-step protocol each) -/
+
+inductive Act where
+  | running (i : Nat)                          -- listener.on_running
+  | tick (i : Nat)                             -- Supervisor TICK of instance `i`
+  | exec (i j : Nat)                           -- the proxy thread of `i` dedicated to `j` handles its next message
+  | deliver (j : Nat)                          -- the Supervisor of `j` dispatches its next RemoteCommunicationEvent
+  | pev (i p : Nat) (s : Supv.Proc.PState) (ex : Bool)   -- process state event in the Supervisor of `i`
+  | crash (i : Nat) | restart (i : Nat) | cut (i j : Nat) | heal
+  | rpcRestart (i : Nat) (shutdown : Bool) | rpcEndSync (i : Nat) (m : Option Nat)
+  | inject (j : Nat) (op : Option Op)          -- a duplicated / stale / forged message handed to the listener of `j`
+  | nop
+  deriving Repr
+
+def Net.step (g : Net) (now : Nat) (a : Act) : Net × Obs :=
+  match a with
+  | .running i => let (g', e, o) := g.handle now i .running; (g', [(i, e, o)])
+  | .tick i => g.tick now i
+  | .exec i j => g.exec now i j
+  | .deliver j => g.deliver now j
+  | .pev i p s ex => g.procEvent now i p s ex
+  | .crash i => ({ g with up := g.up.set i false }, [])
+  | .restart i => (g.restart now i, [])
+  | .cut i j => ({ g with cut := g.cut ++ [(i, j)] }, [])
+  | .heal => ({ g with cut := [] }, [])
+  | .rpcRestart i sd => g.rpcRestart now i sd
+  | .rpcEndSync i m => g.rpcEndSync now i m
+  | .inject j (some op) => let (g', e, o) := g.handle now j op; (g', [(j, e, o)])
+  | .inject j none => (g, [(j, none, [])])
+  | .nop => (g, [])
+
+/-- a schedule: time, action, oracle answers for the instance acting -/
+abbrev Sched := List (Nat × Act × List (Query × Nat))
+
+def Net.run (g : Net) : Sched → Net
+  | [] => g
+  | (now, a, orc) :: rest => (({ g with oracle := orc }).step now a).1.run rest
+
+/-- "all pending messages have been delivered and no handshake is in progress" -/
+def Net.quiescent (g : Net) : Bool :=
+  (List.range g.n).all (fun i => (g.inbox.getD i []).isEmpty && (List.range g.n).all (fun j => (g.queue i j).isEmpty
+    && g.view i j != .checking))
+
+/-- the state `i` holds as the last report of `j` about program `p` -/
+def Net.held (g : Net) (i j p : Nat) : Option Supv.Proc.PState := ((g.proc i p).infos.get? j).map (·.state)
 
 end Supv.Net
